@@ -40,7 +40,8 @@ def gen_case(rng: random.Random, n_ops: int, profile: str = "mixed") -> list[str
     for _ in range(n_ops):
         k = rng.choices(kinds, w)[0]
         if k == "req":
-            lines.append(f"req\t{rng.randrange(NCMD)}")
+            # now and then with an argument the command's parser rejects
+            lines.append(f"req\t{rng.randrange(NCMD)}" + ("\tbad" if rng.random() < 0.12 else ""))
             nid += 1
         elif k == "tick":
             lines.append("tick")
@@ -63,7 +64,7 @@ def malformed_case(rng: random.Random) -> list[str]:
     commands in the wrong state or while another one is in flight, requests while stopped."""
     lines = [cfg_line(gen_spec(rng))]
     for _ in range(rng.randrange(4, 14)):
-        lines.append(rng.choice(["req\t0", "req\t7", "cancel\t999", "force\t999", "cancel\t0", "force\t1",
+        lines.append(rng.choice(["req\t0", "req\t7", "req\t1\tbad", "req\t7\tbad", "cancel\t999", "force\t999", "cancel\t0", "force\t1",
                                  "user\tstop", "user\tstart", "user\tstart", "user\trestart", "tick", "tick",
                                  "sim\t2", "pause\t1", "pause\t0"]))
     return lines
@@ -71,7 +72,8 @@ def malformed_case(rng: random.Random) -> list[str]:
 
 def exhaustive_cases(length: int) -> list[list[str]]:
     """Every op sequence of the given length over a small alphabet, after Start."""
-    alphabet = ["req\t0", "req\t1", "req\t2", "req\t3", "tick", "cancel\t1", "pause\t1", "force\t1", "user\tstop"]
+    alphabet = ["req\t0", "req\t1", "req\t2", "req\t3", "req\t1\tbad", "tick", "cancel\t1", "pause\t0", "force\t1",
+                "user\tstop"]
     head = [cfg_line(SMALL_SPEC), "user\tstart", "tick"]
     return [head + list(seq) + ["tick", "tick"] for seq in itertools.product(alphabet, repeat=length)]
 
@@ -101,7 +103,8 @@ def parse(answer: str) -> dict[str, Any] | None:
     inst = {}
     for e in lst(m.group(5)):
         k, ser, owner, rest = e.split(":")
-        inst[int(k)] = {"serial": int(ser), "owner": owner, "state": rest}
+        # serial "-": created, never initialised (no callback yet)
+        inst[int(k)] = {"serial": None if ser == "-" else int(ser), "owner": owner, "state": rest}
     return {"reply": m.group(1), "ev": lst(m.group(2)), "ex": lst(m.group(3)), "qu": lst(m.group(4)), "inst": inst,
             "tr": tracks(m.group(6)), "started": m.group(7) == "1", "stopping": m.group(8) == "1",
             "tracking": m.group(9) == "1", "paused": m.group(10) == "1", "sys": m.group(11), "run": m.group(12),
@@ -158,6 +161,13 @@ def oracle_c11(lines: list[str], answers: list[str]) -> list[tuple[str, str]]:
                     kind = "same-command" if name_of[a1] == name_of[a2] else "overlapping-commands"
                     out.append((f"two-instances-execute-in-one-tick:{kind}",
                                 f"op {n}: instances #{a1} (K{name_of[a1]}) and #{a2} (K{name_of[a2]}) both executed"))
+        # when the run ends every instance that was initialised has been finalized
+        if o["stop"] is not None:
+            for ser, st in state.items():
+                if st in ("init", "run"):
+                    out.append(("initialised-instance-not-finalized-when-run-ends",
+                                f"op {n}: #{ser} was initialised and is not finalized although the run has ended"))
+                    state[ser] = "lost"
         # an instance that left the map must have been finalized
         live = {rec["serial"] for rec in o["inst"].values()}
         for ser, st in state.items():
@@ -186,8 +196,11 @@ def oracle_c10(lines: list[str], answers: list[str]) -> list[tuple[str, str]]:
         if ln == "user\trestart" and o["reply"] == "ok":
             pending_restart = True
         if o["stop"] is not None:
-            if o["inst"]:
+            if any(rec["serial"] is not None for rec in o["inst"].values()):
                 out.append(("instance-survives-stop", f"op {n}: instances {sorted(o['inst'])} after the run ended"))
+            elif o["inst"]:
+                out.append(("uninitialised-instance-survives-stop",
+                            f"op {n}: never initialised instances {sorted(o['inst'])} still in uod.command_instances"))
             for snap in o["stop"]:
                 for i, t in snap.items():
                     if "S" in t["marks"] and not any(c in t["marks"] for c in "DFX"):
@@ -246,6 +259,8 @@ def oracle_c12(lines: list[str], answers: list[str]) -> list[tuple[str, str]]:
                 out.append(("cancelled-uod-command-executes", f"op {n}: #{ser} executes after the cancel at op "
                                                              f"{cancelled_serials[ser]}"))
         for k, rec in o["inst"].items():
+            if rec["serial"] is None:
+                continue              # never initialised: it has not run
             key = -1 - int(rec["owner"]) if rec["owner"].isdigit() else None
             if key in cancelled_serials and n > cancelled_serials[key]:
                 out.append(("cancelled-unstarted-uod-command-executes",
